@@ -428,6 +428,20 @@ def convertDesignBand (doc : Dict) : PyR Dict :=
   forEachIn doc "elements" (fun elem => do
     if ← isRoadmWithParams elem then onParams elem designBandToYang else pure elem)
 
+/-- `design_bands[target[DEGREE_KEY]] = target['design_bands']` for one target -/
+def bandOf (tj : J) : PyR (String × J) := do
+  let tg ← asObj tj
+  match ← tg.get "degree_uid" with
+  | .str s => return (s, ← tg.get "design_bands")
+  | _ => typeError "non-string degree uid"
+
+/-- the `for target in targets` loop of `convert_back_design_band` -/
+def collectBands : List J → Dict → PyR Dict
+  | [], acc => pure acc
+  | tj :: ts, acc => do
+    let (deg, b) ← bandOf tj
+    collectBands ts (acc.set deg b)
+
 /-- body of `convert_back_design_band` -/
 def designBandToLegacy (params : Dict) : PyR Dict := do
   match params.get? "per_degree_design_bands_targets" with
@@ -435,13 +449,7 @@ def designBandToLegacy (params : Dict) : PyR Dict := do
   | some t =>
     let p := params.erase "per_degree_design_bands_targets"
     if !t.truthy then return p
-    let targets ← asArr t
-    let bands ← targets.foldlM (fun (acc : Dict) tj => do
-      let tg ← asObj tj
-      let deg ← match ← tg.get "degree_uid" with
-        | .str s => pure s
-        | _ => typeError "non-string degree uid"
-      return acc.set deg (← tg.get "design_bands")) []
+    let bands ← collectBands (← asArr t) []
     if bands.isEmpty then return p else return p.set "per_degree_design_bands" (.obj bands)
 
 def convertBackDesignBand (doc : Dict) : PyR Dict :=
@@ -471,8 +479,12 @@ def convertLossCoefList (doc : Dict) : PyR Dict :=
   forEachIn doc "elements" (fun elem => withParams elem lossCoefToYang)
 
 /-- `[item[k] for item in l]` -/
-def column (k : String) (l : List J) : PyR (List J) :=
-  l.mapM (fun it => do (← asObj it).get k)
+def column (k : String) : List J → PyR (List J)
+  | [] => pure []
+  | it :: rest => do
+    let v ← (← asObj it).get k
+    let vs ← column k rest
+    return v :: vs
 
 /-- body of `convert_back_loss_coeff_list` -/
 def lossCoefToLegacy (params : Dict) : PyR Dict := do
@@ -600,6 +612,22 @@ def forEachIfPresent (d : Dict) (key : String) (f : Dict → PyR Dict) : PyR Dic
 
 def convertRamanEfficiency (doc : Dict) : PyR Dict :=
   forEachIfPresent doc "RamanFiber" ramanEffToYang
+
+/-- proposed repair of F7, converter part: an equipment RamanFiber entry that carries the spelling
+    written by `convert_back_raman_efficiency` (`raman_coefficient {g0, frequency_offset}`) is read
+    as `raman_efficiency {cr, frequency_offset}` before the conversion -/
+def ramanEffAcceptCoef (fe : Dict) : PyR Dict :=
+  match fe.get? "raman_coefficient" with
+  | some rcj =>
+    if !fe.has "raman_efficiency" && pyIn "g0" rcj then do
+      let rc ← asObj rcj
+      return (fe.erase "raman_coefficient").set "raman_efficiency"
+        (.obj [("cr", popD rc "g0"), ("frequency_offset", popD rc "frequency_offset")])
+    else pure fe
+  | none => pure fe
+
+def convertRamanEfficiencyFixed (doc : Dict) : PyR Dict :=
+  forEachIfPresent doc "RamanFiber" (fun fe => do ramanEffToYang (← ramanEffAcceptCoef fe))
 
 /-- `[c[k] for c in l if k in c]` -/
 def columnIf (k : String) (l : List J) : PyR (List J) := do
@@ -814,8 +842,9 @@ def onKey (d : Dict) (key : String) (f : Dict → PyR Dict) : PyR Dict := do
   let inner ← asObj (← d.get key)
   return d.set key (.obj (← f inner))
 
-/-- the structural part of `legacy_to_yang` (everything before the final `convert_dict`) -/
-def toYangStruct (d : Dict) : PyR Dict := do
+/-- the structural part of `legacy_to_yang` (everything before the final `convert_dict`);
+    `reff` is `convertRamanEfficiency` for the code as it is -/
+def toYangStructWith (reff : Dict → PyR Dict) (d : Dict) : PyR Dict := do
   if d.has "elements" then
     let d ← reorderRamanPumps d
     let d ← reorderLumpedLosses d
@@ -831,13 +860,13 @@ def toYangStruct (d : Dict) : PyR Dict := do
     let d ← onKey d TOPO convertLossCoefList
     onKey d TOPO removeNullRegionCity
   else if hasAny d eqptTypes then
-    let d ← convertRamanEfficiency d
+    let d ← reff d
     let d ← convertDeltaPowerRange d
     let d ← convertNfCoef d
     let d ← addMissingDefaultTypeVariety d
     return [(EQPT, .obj d)]
   else if d.has EQPT then
-    let d ← onKey d EQPT convertRamanEfficiency
+    let d ← onKey d EQPT reff
     let d ← onKey d EQPT convertDeltaPowerRange
     let d ← onKey d EQPT convertNfCoef
     onKey d EQPT addMissingDefaultTypeVariety
@@ -864,11 +893,17 @@ def toYangStruct (d : Dict) : PyR Dict := do
     return d
   else valueError "Unrecognized type of content (not topology, service or equipment)"
 
+def toYangStruct := toYangStructWith convertRamanEfficiency
+
 /-- `legacy_to_yang` -/
-def legacyToYang (reprs : List (Nat × String)) (doc : J) : PyR J := do
+def legacyToYangWith (reff : Dict → PyR Dict) (reprs : List (Nat × String)) (doc : J) : PyR J := do
   let d ← asObj (noneToEmpty doc)
-  let s ← toYangStruct d
+  let s ← toYangStructWith reff d
   convertDict reprs 2 (.obj s)
+
+def legacyToYang := legacyToYangWith convertRamanEfficiency
+/-- with the proposed repair of F7 -/
+def legacyToYangFixed := legacyToYangWith convertRamanEfficiencyFixed
 
 /-- the structural part of `yang_to_legacy` (after `convert_empty_to_none` and `convert_back`);
     `backRange` is `convertBackDeltaPowerRange` for the code as it is -/
@@ -903,14 +938,15 @@ def toLegacyStruct (backRange : Dict → PyR Dict) (d : Dict) : PyR J := do
 
 /-- `yang_to_legacy` with libyang validation left out (the harness only sends validated documents);
     `legacy_to_yang` is still run first, as the code does, so its own errors surface -/
-def yangToLegacyWith (backRange : Dict → PyR Dict) (reprs : List (Nat × String)) (doc : J) : PyR J := do
-  let _ ← legacyToYang reprs doc
+def yangToLegacyWith (reff : Dict → PyR Dict) (backRange : Dict → PyR Dict) (reprs : List (Nat × String)) (doc : J) :
+    PyR J := do
+  let _ ← legacyToYangWith reff reprs doc
   let j ← convertBack none (emptyToNone doc)
   toLegacyStruct backRange (← asObj j)
 
-def yangToLegacy := yangToLegacyWith convertBackDeltaPowerRange
-/-- the repaired converter (F6 fixed) -/
-def yangToLegacyFixed := yangToLegacyWith convertBackDeltaPowerRangeAll
+def yangToLegacy := yangToLegacyWith convertRamanEfficiency convertBackDeltaPowerRange
+/-- the repaired converters (F6: every SI/Span entry converted back; F7: see `ramanEffAcceptCoef`) -/
+def yangToLegacyFixed := yangToLegacyWith convertRamanEfficiencyFixed convertBackDeltaPowerRangeAll
 
 /-! ### alias expansion of `_equipment_from_json` (json_io.py:576-611) -/
 
